@@ -165,7 +165,8 @@ func (r *rw) stmts(list []ast.Stmt) []ast.Stmt {
 		// After the statement that sets ValueLogFileSize, the copy also sets MaxTableSize to 1 MiB.
 		if r.storage && r.fn == "NewStore" {
 			if as, ok := s.(*ast.AssignStmt); ok && len(as.Lhs) == 1 {
-				if se, ok := as.Lhs[0].(*ast.SelectorExpr); ok && se.Sel.Name == "ValueLogFileSize" {
+				if se, ok := as.Lhs[0].(*ast.SelectorExpr); ok && se.Sel.Name == "ValueLogFileSize" && isSel(se.X) {
+					r.needVrt = true
 					out = append(out, &ast.AssignStmt{
 						Lhs: []ast.Expr{&ast.SelectorExpr{X: se.X, Sel: ast.NewIdent("MaxTableSize")}},
 						Tok: token.ASSIGN,
@@ -175,6 +176,17 @@ func (r *rw) stmts(list []ast.Stmt) []ast.Stmt {
 						Lhs: []ast.Expr{&ast.SelectorExpr{X: se.X, Sel: ast.NewIdent("ValueLogFileSize")}},
 						Tok: token.ASSIGN,
 						Rhs: []ast.Expr{&ast.BasicLit{Kind: token.INT, Value: "1 << 21"}},
+					}, &ast.AssignStmt{
+						// schedule points inside the store's transactions: badgerhold calls the configured codec between
+						// a transaction's reads and its commit, so wrapping the codec lets the explorer interleave two
+						// transactions; badger's own (real) conflict detection then decides what happens.
+						Lhs: []ast.Expr{&ast.SelectorExpr{X: se.X.(*ast.SelectorExpr).X, Sel: ast.NewIdent("Encoder")}},
+						Tok: token.ASSIGN,
+						Rhs: []ast.Expr{vrtCall("BhEncoder", &ast.SelectorExpr{X: se.X.(*ast.SelectorExpr).X, Sel: ast.NewIdent("Encoder")})},
+					}, &ast.AssignStmt{
+						Lhs: []ast.Expr{&ast.SelectorExpr{X: se.X.(*ast.SelectorExpr).X, Sel: ast.NewIdent("Decoder")}},
+						Tok: token.ASSIGN,
+						Rhs: []ast.Expr{vrtCall("BhDecoder", &ast.SelectorExpr{X: se.X.(*ast.SelectorExpr).X, Sel: ast.NewIdent("Decoder")})},
 					}, &ast.AssignStmt{
 						// and no level-0 compaction (a second table build) on every Close
 						Lhs: []ast.Expr{&ast.SelectorExpr{X: se.X, Sel: ast.NewIdent("CompactL0OnClose")}},
@@ -587,3 +599,5 @@ func (r *rw) mapReads(s ast.Stmt) []ast.Stmt {
 	}
 	return out
 }
+
+func isSel(e ast.Expr) bool { _, ok := e.(*ast.SelectorExpr); return ok }
